@@ -14,7 +14,9 @@ warnings.simplefilter("ignore")
 H = Harness("C17", ["OQ.Base.CaseEq", "OQ.Stats.Dist", "OQ.Stats.DistCases", "OQ.Stats.DistReal"],
             "kinds: make (constructor on tuple / binary-string / comma-string keys, binary and multi-digit outcomes incl. "
             ">= 10, normalize on/off; weights dyadic with power-of-two total: exact, arbitrary or within 1e-9 of 1: "
-            "1e-12) and make-invalid (empty, negative weight incl. magnitudes down to 2^-100, unequal key lengths, all-zero, unparsable string); "
+            "1e-12), make-tiny (valid dictionaries whose total is below / one ulp below / exactly at / just above "
+            "sys.float_info.min = 2^-1022, denormal dyadic weights, power-of-two totals from 2^-1022 up so that every float "
+            "operation is exact, normalize on and off) and make-invalid (empty, negative weight incl. magnitudes down to 2^-100, unequal key lengths, all-zero, unparsable string); "
             "sub (every subset/order of <= 5 qubits on 1-5 subsystems, plus sub-long: non-monotone lists of 4-6 qubits on 4-7 "
             "subsystems incl. first/last spanning len-1 with the middle shuffled or replaced, on outcomes with a distinct "
             "digit per position; source snapshotted before/after) and sub-invalid "
@@ -85,6 +87,30 @@ def gen_weights(rng, m, mode):
         ws[rng.randrange(m)] = rng.uniform(0.01, 3.0)
     return ws
 
+FMIN_EXP = 1022          # sys.float_info.min == 2.0 ** -1022
+
+def gen_tiny_weights(rng, m):
+    """weights of a valid dictionary whose total lies around sys.float_info.min; all sums are exact in binary64
+    (multiples of 2^-1074 below 2^-1020) and the totals that get normalised are powers of two (1.0/total and the
+    products are exact)"""
+    cat = rng.choice(["below", "below", "ulp-below", "at", "above"])
+    if cat == "below":                       # c_i * 2^-e with sum c_i < 2^(e-1022)
+        e = rng.choice([1030, 1040, 1060, 1074])
+        cap = min(2 ** (e - FMIN_EXP) - 1, 10 ** 6)
+        cs = [rng.randint(0, max(1, cap // m)) for _ in range(m)]
+        if not any(cs):
+            cs[rng.randrange(m)] = 1
+        return [c * 2.0 ** -e for c in cs], cat
+    if cat == "ulp-below":                   # total = 2^-1022 - j * 2^-1074
+        j = rng.randint(1, 5)
+        ws = [2.0 ** -1023, 2.0 ** -1023 - j * 2.0 ** -1074] + [0.0] * (m - 2)
+        return (ws[:m] if m >= 2 else [2.0 ** -1022 - j * 2.0 ** -1074]), cat
+    shift = 0 if cat == "at" else rng.choice([1, 2, 10])      # total = 2^(-1022 + shift)
+    S = 2 ** 8
+    cuts = sorted(rng.choice(range(S + 1)) for _ in range(m - 1))
+    cs = [b - a for a, b in zip([0] + cuts, cuts + [S])]
+    return [c * 2.0 ** (-FMIN_EXP - 8 + shift) for c in cs], cat
+
 def fmt_key(rng, k, style):
     if style == "tuple":
         return list(k)
@@ -137,7 +163,12 @@ def gen(rng, tier):
     n = {"quick": 500, "thorough": 12000, "search": 300}.get(tier, 500)
     for _ in range(n):
         r = rng.random()
-        if r < 0.22:
+        if r < 0.04:
+            items, _, _ = gen_items(rng, "dyadic")
+            ws, cat = gen_tiny_weights(rng, len(items))
+            yield dict(kind="make", items=[[k, w] for (k, _), w in zip(items, ws)], normalize=rng.random() < 0.7,
+                       wmode="dyadic", tiny=cat)
+        elif r < 0.22:
             items, wmode, _ = gen_items(rng)
             yield dict(kind="make", items=items, normalize=rng.random() < 0.8, wmode=wmode)
         elif r < 0.32:
@@ -146,6 +177,11 @@ def gen(rng, tier):
         elif r < 0.52:
             items, wmode, nn = gen_items(rng, rng.choice(["dyadic", "dyadic", "float"]))
             qs = rng.sample(range(nn), rng.randint(1, nn))
+            if wmode == "dyadic" and rng.random() < 0.12:      # a source with a total below float_min (built with normalize=False)
+                ws, cat = gen_tiny_weights(rng, len(items))
+                if cat in ("below", "ulp-below"):
+                    yield dict(kind="sub", items=[[k, w] for (k, _), w in zip(items, ws)], normalize=False, wmode="dyadic", qs=qs, tiny=cat)
+                    continue
             yield dict(kind="sub", items=items, normalize=rng.random() < 0.85, wmode=wmode, qs=qs)
         elif r < 0.62:
             # long non-monotone qubit lists on 4-7 subsystems; every outcome has a distinct digit per position and
@@ -234,8 +270,9 @@ def run_make(inp):
     ok_input = (None not in parsed and len(pre) > 0 and all(v >= 0 for v in pre.values())
                 and len({len(k) for k in pre}) == 1 and all(x >= 0 for k in pre for x in k))
     already = ok_input and abs(total - 1) <= Fraction(1, 10 ** 9) * max(total, 1)
+    too_small = 0 < total < Fraction(1, 2 ** FMIN_EXP)            # "too small values": refused when normalisation is on
     ok, msg = True, ""
-    if ok_input and (total > 0 or not normalize):
+    if ok_input and ((total > 0 and not too_small) or not normalize):
         if st != "ok":
             ok, msg = False, f"valid input rejected with {out}"
         else:
@@ -264,7 +301,8 @@ def run_make(inp):
     if model_ok:
         chk = (f"make_eqb {craw(items)} {cbool(normalize)} {coq}" if exact else
                f"make_close {cq(TOL)} {craw(items)} {cbool(normalize)} {coq}")
-    kind = "make" + ("-invalid:" + inp["what"] if "what" in inp else "-" + inp["wmode"]) + ("" if st == "ok" else "-rejected")
+    kind = "make" + ("-invalid:" + inp["what"] if "what" in inp else "-tiny:" + inp["tiny"] if "tiny" in inp else
+                     "-" + inp["wmode"]) + ("" if st == "ok" else "-rejected")
     return dict(chk=chk, oracle_ok=ok, oracle_msg=msg, kind=kind, nontrivial=len(pre) >= 2)
 
 
@@ -308,7 +346,7 @@ def run_sub(inp):
             chk += f" && make_eqb {craw(items)} {cbool(normalize)} (Ok {cdist(before)})"
     nproj = len({tuple(k[i] for i in qs) for k, _ in before}) if qs_ok else 0
     kind = "sub" + ("-invalid:" + inp["what"] if "what" in inp else
-                    f"-long-{inp['shape']}" if "shape" in inp else f"-{len(qs)}of{n}-{inp['wmode']}")
+                    f"-long-{inp['shape']}" if "shape" in inp else "-tiny-source" if "tiny" in inp else f"-{len(qs)}of{n}-{inp['wmode']}")
     return dict(chk=chk, oracle_ok=ok, oracle_msg=msg, kind=kind, nontrivial=len(before) >= 2 and (nproj >= 2 or not qs_ok))
 
 
